@@ -1007,7 +1007,18 @@ impl<'a, 'b> Gen<'a, 'b> {
                 3 => {
                     // guarded / unguarded first of a list
                     let l = self.gen_expr(&Ty::List(Box::new(Ty::Int)), scope, d);
-                    if self.c.chance(60) {
+                    // (never on a constant: a sub-expression that fails for every input is outside
+                    // the properties' quantifiers -- optimisers fold it and reject the program)
+                    fn has_var(e: &Expr) -> bool {
+                        match e {
+                            Expr::Var(_) => true,
+                            Expr::Prim(_, a) | Expr::List(a) => a.iter().any(has_var),
+                            Expr::If(a, b, c) => has_var(a) || has_var(b) || has_var(c),
+                            Expr::Call { args, .. } => args.iter().any(has_var),
+                            _ => false,
+                        }
+                    }
+                    if self.c.chance(60) && has_var(&l) {
                         self.feat("unguarded-partial-op");
                         Expr::Prim("f", vec![l])
                     } else {
